@@ -90,6 +90,41 @@ impl DataWorld {
         DataWorld { spec, srv: None, cli: None, aux: None, model: Model::new(), t0_ms: 0, t0_ns: 0, restarts: 0, hist: vec![], last_sig: String::new() }
     }
 
+    /// Resolve placeholders in command templates: `@T+N` = epoch wall-clock ms + N; `@FIRST/@LAST/@MID[:key]`
+    /// = id of the first/last/middle present entry of the model's stream (default key `s`), `9-9` if none
+    pub fn resolve(&self, args: &[Bytes]) -> Vec<Bytes> {
+        args.iter().map(|a| {
+            if !a.contains(&b'@') {
+                return a.clone();
+            }
+            let mut s = String::from_utf8_lossy(a).to_string();
+            while let Some(p) = s.find("@T+") {
+                let rest = &s[p + 3..];
+                let digits: String = rest.chars().take_while(|c| c.is_ascii_digit()).collect();
+                let n: u64 = digits.parse().unwrap_or(0);
+                s = format!("{}{}{}", &s[..p], self.t0_ms + n, &rest[digits.len()..]);
+            }
+            for (tag, which) in [("@FIRST", 0usize), ("@LAST", 1), ("@MID", 2)] {
+                if let Some(p) = s.find(tag) {
+                    let key = b"s".to_vec();
+                    let id = match self.model.dbs[self.spec.db].keys.get(&key) {
+                        Some(crate::model::Entry { val: crate::model::Val::Stream(st), .. }) if !st.entries.is_empty() => {
+                            let ids: Vec<(u64, u64)> = st.entries.keys().cloned().collect();
+                            match which {
+                                0 => ids[0],
+                                1 => ids[ids.len() - 1],
+                                _ => ids[ids.len() / 2],
+                            }
+                        }
+                        _ => (9, 9),
+                    };
+                    s = format!("{}{}-{}{}", &s[..p], id.0, id.1, &s[p + tag.len()..]);
+                }
+            }
+            s.into_bytes()
+        }).collect()
+    }
+
     fn ensure(&mut self) -> Result<(), String> {
         if self.srv.as_ref().map(|s| s.is_dead()).unwrap_or(true) {
             self.srv = None;
@@ -288,6 +323,7 @@ impl World for DataWorld {
             self.t0_ms = 0;
         }
         self.model.set_clock();
+        self.model.sig_ms_base = self.t0_ms;
         Ok(())
     }
 
@@ -297,6 +333,7 @@ impl World for DataWorld {
         match a {
             Act::Cmd(args) => {
                 self.model.set_clock();
+                let args = self.resolve(&args);
                 self.last_sig = self.model.sig_of(self.spec.db, &args);
                 let (ok, obs, _shown, dev) = self.judged_call(&args);
                 Ok(StepOut { ok, dev, obs })
